@@ -1059,6 +1059,15 @@ class Channel(ClosingContextManager):
             self._log(
                 ERROR, "unknown extended_data type {}; discarding".format(code)
             )
+            # the peer spent window on these bytes: count them as consumed so
+            # the window is replenished, exactly as recv() does
+            ack = self._check_add_window(len(s))
+            if ack > 0:
+                m = Message()
+                m.add_byte(cMSG_CHANNEL_WINDOW_ADJUST)
+                m.add_int(self.remote_chanid)
+                m.add_int(ack)
+                self.transport._send_user_message(m)
             return
         if self.combine_stderr:
             self._feed(s)
